@@ -8,4 +8,5 @@ INVARIANT ImplAddEquiv
 INVARIANT LessEquiv
 INVARIANT RoundTrip
 INVARIANT PlaceEquiv
+INVARIANT WindowEquiv
 CHECK_DEADLOCK FALSE
